@@ -3,7 +3,7 @@
 One real endpoint A (active) with a scripted peer: the peer stream is produced by the independent
 RFC 9174 encoder from symbolic fields.  A is driven (through its API) into each session state, then one
 or two adversarial well-formed messages arrive; afterwards a cooperative peer acknowledges everything. '''
-from vf.engine import cur, blen, same_bytes, is_sym
+from vf.engine import cur, blen, same_bytes, is_sym, neg
 from vf.oracle import rfc9174
 from checks.tcpcl_common import *
 
@@ -158,7 +158,7 @@ def harness(case, tier):
         if kind == 'CONTACT_BAD':
             magic = c.sym_bytes('magic', 4)
             ver = c.sym_int('ver', 0, 255)
-            c.assume(~(same_bytes(magic, b'dtn!') & (ver == 4)))
+            c.assume(neg(same_bytes(magic, b'dtn!') & (ver == 4)))
             c.assume(ver != 3)     # a TCPCLv3 header is longer: the endpoint legitimately waits for more
             illegal = True
             peer.send(magic + rfc9174.u(ver, 1) + rfc9174.u(c.sym_int('cflags', 0, 255), 1))
